@@ -28,6 +28,17 @@ def run_property(prop, tier, replay=None, src=None):
     mod.run(ctx)
     if tier == "thorough" and hasattr(mod, "run_thorough"):
         mod.run_thorough(ctx)
+    if tier == "thorough" and src is None and replay is None:
+        from . import selftest
+        st = selftest.run(prop, program.src)
+        ctx.selftest = st
+        if st is not None:
+            for r in st["failed"]:
+                print(f"SELFTEST-WARNING property={prop} {r['kind']} '{r['name']}': {r['status']} {r.get('why', '')[-200:]}")
+            print(f"[{prop}] self-test: {st['detected']}/{st['mutants']} seeded mutants detected, "
+                  f"{st['silent']}/{st['clean_variants']} behaviour-preserving variants silent, {len(st['skipped'])} skipped")
+            if st["failed"] and os.environ.get("VERIF_SELFTEST_STRICT"):
+                raise AnalysisError(f"self-test failed: {[r['name'] for r in st['failed']]}")
     if only is not None:
         key = f"{only['rule']}::{only['construct']}"
         ctx.findings = [f for f in ctx.findings if f.key == key]
